@@ -274,3 +274,26 @@ Proof.
     rewrite (nodup_keys_fun _ _ _ _ ND IN I1) in V. congruence.
   - unfold dict_get in I2. apply (lookup_in_some _ _ _ IN R). exact I2.
 Qed.
+
+(** A replace entry can be None: with a route table of 6 points the script of this pair is cut after the first
+    search and the merge pairs the two 9s (on the real code the same happens once 2 000 000 points are
+    exceeded; the harness shows it on a 1500 x 1700 pair). *)
+Lemma replace_none_witness :
+  let a := VTuple [VInt 9; VInt 9; VInt 5; VInt 5] in
+  let b := VTuple [VInt 1; VInt 2; VInt 0; VInt 0; VInt 9] in
+  diff 6 a b =
+  Ok (Some (DSlice a b [SE KAdd (VTuple [VInt 1; VInt 2; VInt 0]);
+                        SRepl [Some (DLit (VInt 9) (VInt 0)); None];
+                        SE KDelete (VTuple [VInt 5; VInt 5])])).
+Proof. vm_compute. reflexivity. Qed.
+
+Lemma replace_none_exists :
+  exists route_size a b edits ds,
+    diff route_size a b = Ok (Some (DSlice a b edits)) /\ In (SRepl ds) edits /\ In None ds.
+Proof.
+  exists 6, (VTuple [VInt 9; VInt 9; VInt 5; VInt 5]), (VTuple [VInt 1; VInt 2; VInt 0; VInt 0; VInt 9]).
+  exists [SE KAdd (VTuple [VInt 1; VInt 2; VInt 0]); SRepl [Some (DLit (VInt 9) (VInt 0)); None];
+          SE KDelete (VTuple [VInt 5; VInt 5])].
+  exists [Some (DLit (VInt 9) (VInt 0)); None].
+  split; [exact replace_none_witness|]. split; simpl; auto.
+Qed.
